@@ -140,7 +140,10 @@ Table(cls, par, cons, Mod, states, qnames, qmod, chgraw, ops, jw, c2jw) ==
     IN [cls |-> cls, par |-> par, cons |-> cons, Mod |-> Mod, d |-> d, states |-> states,
         qnames |-> qnames, qmod |-> qmod, chg |-> chg,
         order |-> SortOrder(Iota(d), chg),        \* order[new index] = conserve=None index  (Site.perm)
+        sorted |-> TRUE,                          \* sort_charge=True (the default)
         ops |-> ops, jw |-> jw, c2jw |-> c2jw]
+\* the same site built with sort_charge=False: the documented basis order is kept
+Unsorted(T) == [T EXCEPT !.order = Iota(T.d), !.sorted = FALSE]
 
 NoSite == [cls |-> "none"]
 NoGrp == [kind |-> "none"]
@@ -275,7 +278,7 @@ ClockTable(q, cons) ==
 HcPairs(T) == {pr \in (DOMAIN T.ops) \X (DOMAIN T.ops) : T.ops[pr[2]] = MDag(T.ops[pr[1]], T.d, T.Mod)}
 Emit(T) ==
     [cls |-> T.cls, par |-> T.par, cons |-> T.cons, Mod |-> T.Mod, d |-> T.d, states |-> T.states,
-     qnames |-> T.qnames, qmod |-> T.qmod, chg |-> T.chg, order |-> T.order,
+     qnames |-> T.qnames, qmod |-> T.qmod, chg |-> T.chg, order |-> T.order, sorted |-> T.sorted,
      ops |-> [nm \in DOMAIN T.ops |-> Sparse(T.ops[nm])],
      hc |-> HcPairs(T),
      opq |-> [nm \in DOMAIN T.ops |-> OpCharges(T.ops[nm], T.chg, T.qmod)],
@@ -295,7 +298,9 @@ Cat == << Emit(SpinHalfTable("Sz")), Emit(SpinHalfTable("parity")), Emit(SpinTab
           Emit(FermionTable("N", <<1, 2>>)), Emit(FermionTable("parity", <<1, 2>>)), Emit(FermionTable("None", <<1, 2>>)),
           Emit(BosonTable(2, "N", <<0, 1>>)), Emit(BosonTable(2, "parity", <<0, 1>>)),
           Emit(SpinHalfFermionTable("N", "Sz", <<1, 1>>)), Emit(SpinHalfFermionTable("parity", "parity", <<1, 1>>)),
-          Emit(SpinHalfHoleTable("N", "Sz", <<1, 1>>)), Emit(ClockTable(3, "Z")) >>
+          Emit(SpinHalfHoleTable("N", "Sz", <<1, 1>>)), Emit(ClockTable(3, "Z")),
+          \* members whose charges are NOT sorted (sort_charge=False): GroupedSite re-sorts local copies of them
+          Emit(Unsorted(SpinHalfTable("Sz"))), Emit(Unsorted(SpinTable(2, "parity"))) >>
 
 RECURSIVE Lcm3(_)
 Lcm(a, b) == (a * b) \div Gcd(a, b)
@@ -399,8 +404,11 @@ Init == site = NoSite /\ members = <<>> /\ grp = NoGrp /\ last = [op |-> "init"]
 Fresh == site = NoSite /\ members = <<>>
 Built(T, nm) == site' = Emit(T) /\ last' = [op |-> nm] /\ UNCHANGED <<members, grp>>
 
-NewSpinHalf == Fresh /\ \E cons \in SpinConsSet : Built(SpinHalfTable(cons), "SpinHalfSite")
-NewSpin == Fresh /\ \E twoS \in 1..MaxTwoS, cons \in SpinConsSet \cup {"dipole"} : Built(SpinTable(twoS, cons), "SpinSite")
+NewSpinHalf == Fresh /\ \E cons \in SpinConsSet, srt \in BOOLEAN :
+                    Built(IF srt THEN SpinHalfTable(cons) ELSE Unsorted(SpinHalfTable(cons)), "SpinHalfSite")
+NewSpin == Fresh /\ \E twoS \in 1..MaxTwoS, cons \in SpinConsSet \cup {"dipole"}, srt \in BOOLEAN :
+                    /\ (~srt => cons = "parity")
+                    /\ Built(IF srt THEN SpinTable(twoS, cons) ELSE Unsorted(SpinTable(twoS, cons)), "SpinSite")
 NewFermion == Fresh /\ \E cons \in {"N", "parity", "None"}, f \in Fillings : Built(FermionTable(cons, f), "FermionSite")
 NewSpinHalfFermion == Fresh /\ \E cn \in {"N", "parity", "None"}, cs \in SpinConsSet, f \in Fillings :
                                 Built(SpinHalfFermionTable(cn, cs, f), "SpinHalfFermionSite")
@@ -455,7 +463,7 @@ HcComplete == IsSite => \A a \in DOMAIN site.ops : \E b \in DOMAIN site.ops : <<
 ChargeRule == IsSite => \A nm \in DOMAIN site.ops : Cardinality(site.opq[nm]) <= 1
 \* the sorted basis is a permutation of the documented one, with non-decreasing charges
 PermRule == IsSite => /\ {site.order[k] : k \in 1..d} = 1..d
-                      /\ \A k \in 1..(d - 1) : ~QLess(site.chg[site.order[k + 1]], site.chg[site.order[k]])
+                      /\ site.sorted => \A k \in 1..(d - 1) : ~QLess(site.chg[site.order[k + 1]], site.chg[site.order[k]])
 \* operators flagged as fermionic are exactly those changing the fermion number by an odd amount (plus the JW signs)
 JWFlags == (IsSite /\ site.cls \in {"FermionSite", "SpinHalfFermionSite", "SpinHalfHoleSite"}) =>
     LET JW == Op("JW") IN
